@@ -88,6 +88,11 @@ def apalache_phase(prop, wd, info):
         raise Inconclusive("Apalache: the unguarded design satisfies IndInv - the invariant is too weak")
     info["model_runs"].append(dict(module="apalache/Watermark", obligations=["Init => IndInv", "IndInv /\\ Next => IndInv'"], discharged=2,
                                    unguarded_design_counterexample=True))
+    # the deductive counterpart (TLAPS): Spec => []NoSlashable for every signed maximum M / unsigned maximum 2M+1
+    proved, nobl, tail = tlaps(os.path.join(SPEC, "tlaps", "WatermarkProof.tla"), wd)
+    if not proved:
+        raise Inconclusive("TLAPS proof WatermarkProof.tla did not check: %s" % tail)
+    info["model_runs"].append(dict(module="tlaps/WatermarkProof", theorem="Spec => []NoSlashable (unbounded epochs)", obligations_proved=nobl))
     info["mutants"].append(dict(mutant="Watermark Guard=FALSE (Apalache)", killed_by=["IndInv"]))
     concrete = []
     if states:
